@@ -273,7 +273,7 @@ def c15(ck):
     def bad_text(e):
         e["text"] = e["text"][:-1]
     events = stateless_check(
-        ck, binary, "c15", "Trace_C15", ["--namelen", 3 if thorough else 2, "--random", 200000 if thorough else 20000],
+        ck, binary, "c15", "Trace_C15", ["--namelen", 3 if thorough else 2, "--random", 1000000 if thorough else 20000],
         [("NevraRT", bad_parse), ("EvrRT", bad_text)],
         lambda e, r: (f"{e['event']}:{s_(e.get('text', e.get('op','')))}") if e else "?",
         sample_kinds=("NevraRT", "EvrRT", "CtRT"))
@@ -304,7 +304,7 @@ def c17(ck):
         e["outcome"] = "ok"
     events = stateless_check(
         ck, binary, "c17", "Trace_C17",
-        ["--maxlen", 8 if thorough else 6, "--capstok", 4 if thorough else 3, "--meta", 5000 if thorough else 300],
+        ["--maxlen", 9 if thorough else 6, "--capstok", 5 if thorough else 3, "--meta", 20000 if thorough else 300],
         [("Dest", to_panic), ("Dest", must_err_ok), ("Level", to_panic), ("CapsArg", to_panic)],
         lambda e, r: (f"Dest:{s_(e['dest'])}" if e["event"] == "Dest" else
                       f"Level:{e['kind']}:{e['level']}" if e["event"] == "Level" else
@@ -315,7 +315,7 @@ def c17(ck):
                          for e in events if e["outcome"] == "err"})
     ck.extra["outcomes"] = {f"{k}:{o}": sum(1 for e in events if e["event"] == k and e["outcome"] == o)
                             for k in ("Dest", "CapsArg", "Level", "Meta") for o in ("ok", "err")}
-    ck.rule = ("all destination strings over {/ . a b} up to length 6 (8 thorough) plus longer hostile ones; all "
+    ck.rule = ("all destination strings over {/ . a b} up to length 6 (9 thorough) plus longer hostile ones; all "
                "capability texts of <= 3 (4) tokens through FileOptions::caps + build; every compression type with "
                "levels across and beyond its range (one child process per case); seeded metadata strings; "
                "non-trivial = distinct arguments that must be / were rejected with an error")
@@ -563,7 +563,7 @@ def c03(ck):
     def to_err(e):
         e["outcome"] = "DigestMismatchError"
     tr = ck.scratch / "c03.ndjson"
-    vlib.run_harness(binary, ["c03", "--out", tr, "--seed", ck.seed, "--cases", cases, "--flips", 120000 if thorough else 2500])
+    vlib.run_harness(binary, ["c03", "--out", tr, "--seed", ck.seed, "--cases", cases, "--flips", 500000 if thorough else 2500])
     events = read_ndjson(tr)
     for e in events:
         if "case_d" in e and e.get("d") != e["case_d"]:
@@ -653,7 +653,7 @@ def c02(ck):
     ck.add_tlc(vlib.gen_cases("Gen_Signature", "Gen_Signature.cfg", ck.scratch, cases))
     tr = ck.scratch / "c02.ndjson"
     vlib.run_harness(binary, ["c02", "--out", tr, "--seed", ck.seed, "--cases", cases,
-                              "--flips", 20000 if thorough else 600, "--forgeries", 400 if thorough else 40], timeout=3000)
+                              "--flips", 60000 if thorough else 600, "--forgeries", 2500 if thorough else 40], timeout=3000)
     events = read_ndjson(tr)
     by_id = {e["id"]: e for e in events}
     nid = max(by_id) + 1
@@ -714,7 +714,7 @@ def c02(ck):
             ep = by_case.get(e.get("case"), [e])
             shape = ep[0].get("shape")
             ck.violation(f"Verify:{json.dumps(shape, sort_keys=True)}", f"{e['event']} {e.get('result', '')}", ep)
-    lifecycle_walks(ck, binary, "C02", 400 if thorough else 40)
+    lifecycle_walks(ck, binary, "C02", 1500 if thorough else 40)
     begins = [e for e in events if e["event"] == "Begin" and e["id"] in by_id]
     rets = [e for e in events if e["event"] == "Return" and e["id"] in by_id]
     tams = [e for e in events if e["event"] == "Tampered" and e["id"] in by_id]
